@@ -188,8 +188,12 @@ def is_edge_adjacent(v: float, all_edges: Sequence[float]) -> bool:
 
 def shaped(rng: random.Random, values: List[float]):
     """Return the values in one of the container/shape classes h1 accepts (same flattened order)."""
-    kind = rng.choice(["list", "array", "tuple", "array2d", "f32ok", "iter"])
+    kind = rng.choice(["list", "array", "tuple", "array2d", "f32ok", "iter", "list_none", "object"])
     arr = np.asarray(values, dtype=float)
+    if kind == "list_none":  # missing values written as None (plain python table column)
+        return [None if (isinstance(v, float) and math.isnan(v)) else v for v in values], kind
+    if kind == "object":  # object array holding floats (and NaN)
+        return np.array(list(values), dtype=object), kind
     if kind == "list":
         return list(values), kind
     if kind == "tuple":
